@@ -66,6 +66,7 @@ type vSim struct {
 	gidNames  map[int64]string
 
 	inBubble     bool                // running inside a synctest bubble (virtual clock)
+	wgIDs        map[*sync.WaitGroup]int
 	probeScripts map[string][]string // host -> outcomes, last one repeats
 	probeCount   map[string]int
 	probeLog     []map[string]any
@@ -94,7 +95,7 @@ func newSim(t *testing.T, dir string) *vSim {
 		targetIDs: map[*Target]int{}, lbIDs: map[*LoadBalancer]int{}, svcIDs: map[*Service]int{},
 		pcIDs: map[*PauseController]int{}, chanIDs: map[chan bool]int{}, reqPtrIDs: map[*http.Request]string{},
 		inflIDs: map[*inflightRequest]string{}, gidNames: map[int64]string{},
-		probeScripts: map[string][]string{}, probeCount: map[string]int{},
+		probeScripts: map[string][]string{}, probeCount: map[string]int{}, wgIDs: map[*sync.WaitGroup]int{},
 		armed: map[string]int{}, hung: map[string]context.CancelFunc{},
 		statePath: filepath.Join(dir, "kamal-proxy.state"),
 	}
@@ -166,6 +167,13 @@ func (s *vSim) canon(gid int64, a any) any {
 		return s.idSvc(x)
 	case *PauseController:
 		return s.idPC(x)
+	case *sync.WaitGroup: // the WaitGroup of one LoadBalancer.DrainAll call identifies that call
+		id, ok := s.wgIDs[x]
+		if !ok {
+			id = len(s.wgIDs)
+			s.wgIDs[x] = id
+		}
+		return fmt.Sprintf("W%d", id)
 	case *Router:
 		return "router"
 	case *http.Request:
@@ -218,7 +226,15 @@ func (s *vSim) canon(gid int64, a any) any {
 	return a
 }
 
+// the command <-> drain linkage events are recorded only on request (VERIF_LINK=1): the views that predate them are
+// offered traces without them
+var vLinkKinds = map[string]bool{"svc-drain": true, "svc-drain-done": true, "drainall": true, "drain-child": true, "drainall-done": true}
+var vLinkEvents = os.Getenv("VERIF_LINK") == "1"
+
 func (s *vSim) event(kind string, args ...any) {
+	if vLinkKinds[kind] && !vLinkEvents {
+		return
+	}
 	gid := vGoid()
 	s.mu.Lock()
 	defer s.mu.Unlock()
